@@ -245,6 +245,15 @@ func ctxDl(fc *FnCtx, ctx Val) (dl, has string) {
 	return sx("ctxdl", ctx.S), sx("ctxhasdl", ctx.S)
 }
 
+// ctxErrVal: the (non-nil) error a context reports once it is done.
+func ctxErrVal(fc *FnCtx, ctx Val, errT types.Type) Val {
+	fc.sc.declareFun("ctxerrtag", []string{"Int"}, "Int")
+	fc.sc.declareFun("ctxerrval", []string{"Int"}, "Int")
+	tag, val := sx("ctxerrtag", ctx.S), sx("ctxerrval", ctx.S)
+	fc.sc.assume(sx(">", tag, "0"))
+	return Val{K: KIface, T: errT, Tag: tag, S: val}
+}
+
 func freshCtx(fc *FnCtx, st *State, t types.Type) Val {
 	v := fc.freshVal(st, t, "ctx")
 	fc.sc.assume(tNot(tEq(v.Tag, "0")))
@@ -257,6 +266,14 @@ func contextEnv() {
 		envInvoke[pkg+".Context.Done"] = func(fc *FnCtx, fr *Frame, st *State, reach string, recv Val, args []Val, call ssa.CallInstruction) Val {
 			v := fc.freshVal(st, resultType(call.Common().Signature().Results()), "done")
 			v.Orig = "ctx.Done"
+			return v
+		}
+		// Err(): nil, or THE error of this context (contexts report the same error
+		// on every call once they are done): a stable pair of ghost functions
+		envInvoke[pkg+".Context.Err"] = func(fc *FnCtx, fr *Frame, st *State, reach string, recv Val, args []Val, call ssa.CallInstruction) Val {
+			v := fc.freshVal(st, resultType(call.Common().Signature().Results()), "ctxerr")
+			e := ctxErrVal(fc, recv, v.T)
+			fc.sc.assume(tOr(tEq(v.Tag, "0"), tAnd(tEq(v.Tag, e.Tag), tEq(v.S, e.S))))
 			return v
 		}
 		envInvoke[pkg+".Context.Deadline"] = func(fc *FnCtx, fr *Frame, st *State, reach string, recv Val, args []Val, call ssa.CallInstruction) Val {
